@@ -92,6 +92,14 @@ func invalidAlphabet() []badFrame {
 		{"rsv4contExt", fspec{Op: 0, Fin: true, Rsv: 4, Pay: abc}, "open", true},
 		{"rsv4pingExt", fspec{Op: 9, Fin: true, Rsv: 4, Pay: abc}, "any", true},
 		{"rsv6closeExt", fspec{Op: 8, Fin: true, Rsv: 6, Pay: closePay(2)}, "any", true},
+		// on an extended connection a frame may carry RSV bits - and still break another rule
+		{"rsv4textWhileOpenExt", fspec{Op: 1, Fin: true, Rsv: 4, Pay: abc}, "open", true},
+		{"rsv4binWhileOpenNoFinExt", fspec{Op: 2, Fin: false, Rsv: 4, Pay: abc}, "open", true},
+		{"rsv4textWrongMaskExt", fspec{Op: 1, Fin: true, Rsv: 4, Unmask: 3, Pay: abc}, "closed", true},
+		{"rsv2contWhileClosedExt", fspec{Op: 0, Fin: true, Rsv: 2, Pay: abc}, "closed", true},
+		{"rsv4res3Ext", fspec{Op: 3, Fin: true, Rsv: 4, Pay: abc}, "any", true},
+		{"rsv1ping126Ext", fspec{Op: 9, Fin: true, Rsv: 1, Pay: asciiPay(126, 3)}, "any", true},
+		{"rsv2pingNoFinExt", fspec{Op: 9, Fin: false, Rsv: 2, Pay: abc}, "any", true},
 	}
 }
 
@@ -108,7 +116,7 @@ func fixMask(f fspec, side string) fspec {
 
 func c05(c *ctx) {
 	t := &rsink{out: vh.NewOut(c.dir, "c05", 40000), shapes: vh.Shapes{}, meta: &vh.Meta{Property: "C05", Tier: c.tier, Seed: c.seed,
-		Rule: "traces = every valid prefix of 0..P frames (P=2 quick on the short-payload alphabet, 2 full + 3 short thorough) extended by each of 25 invalid frames applicable in that fragmentation state (reserved opcodes, control > 125 / not final, non-zero RSV with and without the extension, wrong mask bit, data frame while open, continuation while closed, doubly broken) and a trailing ping, both sides, entries Reader/ReadMessage/ReadData, chunkings rotated; plus MaxFrameSize in {len-1, len, len+1} around a 130-byte frame at every position; distinct = (entry, side, per-call outcome sequence)"}}
+		Rule: "traces = every valid prefix of 0..P frames (P=2 quick on the short-payload alphabet, 2 full + 3 short thorough) extended by each of 32 invalid frames applicable in that fragmentation state (reserved opcodes, control > 125 / not final, non-zero RSV with and without the extension, wrong mask bit, data frame while open, continuation while closed, doubly broken) and a trailing ping, both sides, entries Reader/ReadMessage/ReadData, chunkings rotated; plus MaxFrameSize in {len-1, len, len+1} around a 130-byte frame at every position; distinct = (entry, side, per-call outcome sequence)"}}
 	defer t.out.Close()
 	rot := 0
 	vs := []rvariant{{"reader", nil, -1, false}, {"readmessage", nil, -1, true}, {"readdata", []int{1, 2}, -1, true}, {"reader", nil, 0, false}}
@@ -241,6 +249,8 @@ func c07(c *ctx) {
 			}
 		}
 	}
+	// messages abandoned half-way (also inside a multi-byte sequence) must not disturb the next one
+	reuseFamily(t, c, "utf8reuse", func(rot, disc int) bool { return disc >= 0 && (c.thorough || rot%4 == 1) })
 	t.finish(c)
 }
 
@@ -469,6 +479,15 @@ func c18r(c *ctx) {
 	t := &rsink{out: vh.NewOut(c.dir, "c18r", 40000), shapes: vh.Shapes{}, meta: &vh.Meta{Property: "C18", Tier: c.tier, Seed: c.seed,
 		Rule: "message reader reuse: first message (32 valid/invalid/truncated UTF-8 strings as text or binary, 1-3 fragments, optional ping) read with 1/2/7-byte buffers and discarded after 0..3 reads or read to the end, followed by two valid messages on the same reader (CheckUTF8 on/off, extension attached or not); distinct = (string, discard point, outcome)"}}
 	defer t.out.Close()
+	reuseFamily(t, c, "reuse", func(rot int, disc int) bool { return c.thorough || rot%3 == 0 || disc == 1 })
+	t.finish(c)
+}
+
+// reuseFamily: a first message (every UTF-8 sample, as text or binary, whole or in fragments around a
+// ping) read with small buffers and discarded after 0..3 reads - possibly in the middle of a
+// multi-byte sequence - or read to the end, followed by further messages on the same reader.
+// Used in full by C18 and sampled by C04 and C07 (a reader that is ready for the next message).
+func reuseFamily(t *rsink, c *ctx, prefix string, keep func(rot, disc int) bool) {
 	rot := 0
 	for _, s := range utf8Samples {
 		n := len(s.b)
@@ -477,7 +496,7 @@ func c18r(c *ctx) {
 				for _, buf := range []int{1, 2, 7} {
 					for _, op := range []int{1, 2} {
 						rot++
-						if !c.thorough && rot%3 != 0 && disc != 1 {
+						if !keep(rot, disc) {
 							continue
 						}
 						var fs []fspec
@@ -489,7 +508,7 @@ func c18r(c *ctx) {
 						fs = append(fs, fspec{Op: 1, Fin: false, Pay: []byte("o")}, fspec{Op: 0, Fin: true, Pay: []byte("k€")}, fspec{Op: 2, Fin: true, Pay: []byte{0xff, 0xfe}}, fspec{Op: 1, Fin: true, Pay: []byte("é")})
 						side := []string{"server", "client"}[rot%2]
 						v := rvariant{"reader", nil, disc, rot%4 != 0}
-						key := fmt.Sprintf("reuse/%s/%d/%d/%d/%d/%s", s.name, cut, disc, buf, op, side)
+						key := fmt.Sprintf("%s/%s/%d/%d/%d/%d/%s", prefix, s.name, cut, disc, buf, op, side)
 						sc := mkScenario(key, side, v, fs, rchunks[rot%len(rchunks)], buf)
 						if rot%5 == 0 {
 							sc.Ext, sc.Extended = true, true
@@ -501,5 +520,4 @@ func c18r(c *ctx) {
 			}
 		}
 	}
-	t.finish(c)
 }
